@@ -348,6 +348,17 @@ def directed_dags(sysm):
              gcalls=[(1, 1, 'g')], version=('0.9.30', '0'), lang='c++'),
         _exe(3, 'bin/tools/prog3', [2, 0], [(2, 2, 'f'), (2, 2, 'g'), (0, 0, 'g')]),
     ]))
+    # D7b: ONE archive reached as a whole archive through one static library and plainly
+    # through another, the two listed in either order
+    both = [
+        _lib(0, 'static', 'lib/n0both', [], as_whole=True),
+        _lib(1, 'static', 'lib/sub/n1viaw', [0], fcalls=[(0, 0, 'f')], gcalls=[]),
+        _lib(2, 'static', 'out/n2plain', [0], fcalls=[(0, 0, 'g')], gcalls=[]),
+        _exe(3, 'bin/prog3', [2, 1], [(2, 2, 'f'), (1, 1, 'f')]),
+        _exe(4, 'tool4', [1, 2], [(1, 1, 'f'), (2, 2, 'f')]),
+    ]
+    both[0]['plain_users'] = [2]
+    out.append(('archive-whole-and-plain', both))
     # D8/D9: static diamond whose shared node has dependencies of its own
     # (prog -> a, b; a -> c; b -> c; c -> d [-> e]): c is reached twice and must
     # still come before d on the link line, whatever the order of the libs
@@ -664,7 +675,8 @@ def render(case):
         for tu in n['tus']:
             files[tu['file']] = _source(n, tu, nodes)
         byid = {x['id']: x for x in nodes}
-        libs = [('whole_archive(n%d)' if byid[d].get('as_whole') else 'n%d') % d
+        libs = [('whole_archive(n%d)' if byid[d].get('as_whole') and
+                 n['id'] not in byid[d].get('plain_users', []) else 'n%d') % d
                 for d in n['deps']]
         if n['sysm_pos'] is not None:
             libs.insert(n['sysm_pos'], 'sysm')
